@@ -276,10 +276,10 @@ class Representer(SafeRepresenter):
             data = '%r' % data.real
         elif data.real == 0.0:
             data = '%rj' % data.imag
-        elif data.imag > 0:
-            data = '%r+%rj' % (data.real, data.imag)
-        else:
+        elif data.imag < 0:
             data = '%r%rj' % (data.real, data.imag)
+        else:
+            data = '%r+%rj' % (data.real, data.imag)
         return self.represent_scalar('tag:yaml.org,2002:python/complex', data)
 
     def represent_tuple(self, data):
